@@ -165,6 +165,10 @@ SPEC = [
     dict(name="fcn", src=("abstract.py", "OptimizationAbstract._fcn"), params={"x": "coords"}, ret="objval", selfr={"_task": ("T", "tasksem")}),
     dict(name="init_agent", src=("abstract.py", "OptimizationAbstract._init_agent"), params={"position": O("raws")}, ret="agent", selfr={"_task": ("T", "tasksem")},
          extra=[("empty_solution", "List Raw"), ("calculate_fitness", "Num → Dir → Num")]),
+    dict(name="grid_iter", src=("hypertuner.py", "ParameterGrid.__iter__"), params={}, ret=L(("dict", "A")), poly=True, generator=True, grid=True,
+         selfr={"param_grid": ("param_grid", L(("dict", L("A"))))}),
+    dict(name="grid_len", src=("hypertuner.py", "ParameterGrid.__len__"), params={}, ret="int", poly=True, grid=True,
+         selfr={"param_grid": ("param_grid", L(("dict", L("A"))))}),
     dict(name="multitask_debug_results", src=("multitask.py", "Multitask.__debug_results__"), params={"result": "mcell", "optimizer_name": "str"}, ret="unit",
          selfr={"_debug": ("self_debug", "bool")}, multitask=True, rho=True),
     dict(name="multitask_run", src=("multitask.py", "Multitask.__run__"), params={"id_trial": "int", "optimizer": "mobj", "task": "mobj", "mode": "mmode"}, ret="mcell",
@@ -534,6 +538,10 @@ class Fn:
             return self.binop(n, env)
         if isinstance(n, ast.Subscript):
             return self.subscript(n, env)
+        if isinstance(n, ast.GeneratorExp) and self.spec.get("grid"):
+            lc = ast.ListComp(elt=n.elt, generators=n.generators)
+            ast.copy_location(lc, n)
+            return self.listcomp(lc, env)
         if isinstance(n, ast.ListComp):
             return self.listcomp(n, env)
         if isinstance(n, ast.Lambda):
@@ -603,7 +611,7 @@ class Fn:
             return term
         if isinstance(ty, tuple) and ty[0] == "opt":
             return f"{atom(term)}.isSome"
-        if isinstance(ty, tuple) and ty[0] == "list":
+        if isinstance(ty, tuple) and ty[0] in ("list", "dict"):
             return f"(!{atom(term)}.isEmpty)"
         if ty in ("int", "nat"):
             return f"(decide ({term} ≠ 0))"
@@ -842,6 +850,43 @@ class Fn:
                 return f"(ObjVal.isList {env[n.args[0].id][0]})", "bool"
             if name == "deepcopy" and len(n.args) == 1 and not n.keywords:
                 return self.E(n.args[0], env)  # values have no identity
+            if self.spec.get("grid"):
+                if name == "sorted" and len(n.args) == 1 and not n.keywords:
+                    t, ty = self.E(n.args[0], env)
+                    if isinstance(ty, tuple) and ty[0] == "list" and isinstance(ty[1], tuple) and ty[1][0] == "tuple" and ty[1][1][0] == "str":
+                        return f"(Py.sortedItems {atom(t)})", ty      # tuples whose first components are distinct strings (dict items): ordered by them
+                    self.err(n, f"sorted() of a {ty}")
+                if name == "zip" and len(n.args) == 1 and isinstance(n.args[0], ast.Starred) and not n.keywords:
+                    t, ty = self.E(n.args[0].value, env)
+                    if isinstance(ty, tuple) and ty[0] == "list" and isinstance(ty[1], tuple) and ty[1][0] == "tuple" and len(ty[1][1]) == 2:
+                        # `a, b = zip(*xs)`: for an empty xs there is nothing to unpack (ValueError)
+                        self.need_eff(n)
+                        return f"(← Py.unzipNonempty {atom(t)})", T(L(ty[1][1][0]), L(ty[1][1][1]))
+                    self.err(n, f"zip(*) of a {ty}")
+                if name == "product" and len(n.args) == 1 and isinstance(n.args[0], ast.Starred) and not n.keywords:
+                    t, ty = self.E(n.args[0].value, env)
+                    if isinstance(ty, tuple) and ty[0] == "list" and isinstance(ty[1], tuple) and ty[1][0] == "list":
+                        return f"(Py.product {atom(t)})", ty
+                    self.err(n, f"product(*) of a {ty}")
+                if name == "dict" and len(n.args) == 1 and not n.keywords and isinstance(n.args[0], ast.Call) and getattr(n.args[0].func, "id", None) == "zip" and len(n.args[0].args) == 2:
+                    kt, kty = self.E(n.args[0].args[0], env)
+                    vt, vty = self.E(n.args[0].args[1], env)
+                    if kty != L("str") or not (isinstance(vty, tuple) and vty[0] == "list"):
+                        self.err(n, f"dict(zip()) of a {kty} and a {vty}")
+                    return f"(Py.dictOfPairs (Py.zip {atom(kt)} {atom(vt)}))", ("dict", vty[1])
+                if name == "partial" and len(n.args) == 2 and ast.unparse(n.args[0]) == "reduce" and ast.unparse(n.args[1]) == "operator.mul" and not n.keywords:
+                    return "Py.reduceMul", "fn_reduce_mul"
+                if name in env and env[name][1] == "fn_reduce_mul" and len(n.args) == 1 and not n.keywords:
+                    t, ty = self.E(n.args[0], env)
+                    if ty != L("int"):
+                        self.err(n, f"reduce(operator.mul) over a {ty}")
+                    self.need_eff(n)
+                    return f"(← Py.reduceMul {atom(t)})", "int"
+                if name == "sum" and len(n.args) == 1 and not n.keywords:
+                    t, ty = self.E(n.args[0], env)
+                    if ty != L("int"):
+                        self.err(n, f"sum() of a {ty}")
+                    return f"({atom(t)}.sum)", "int"
             if name == "str" and len(n.args) == 1 and not n.keywords and self.spec.get("multitask"):
                 t, ty = self.E(n.args[0], env)
                 if ty == "mmode":
@@ -1049,6 +1094,13 @@ class Fn:
                     if not (kw.arg == "axis" and isinstance(kw.value, ast.Constant) and kw.value.value == 0):
                         self.err(n, f"np.argsort keyword {kw.arg}")
                 return f"(Py.npArgsort {atom(t)})", L("nat")
+            if self.spec.get("grid") and f.attr in ("items", "values") and not n.args and not n.keywords:
+                t, ty = self.E(f.value, env)
+                if isinstance(ty, tuple) and ty[0] == "dict":
+                    if f.attr == "items":
+                        return t, L(T("str", ty[1]))          # an insertion-ordered association list is its own list of items
+                    return f"({atom(t)}.map Prod.snd)", L(ty[1])
+                self.err(n, f".{f.attr}() of a {ty}")
             if self.spec.get("rho"):
                 # the size of the pool of trial processes: a scheduling parameter (how many trials run at once), no value depends on it
                 if ast.unparse(f) == "np.clip" and len(n.args) == 3 and [kw.arg for kw in n.keywords] == ["dtype"] and ast.unparse(n.args[2]).startswith("os.cpu_count()"):
@@ -1372,6 +1424,12 @@ class Fn:
                     self.lines.append(f"{pad}{cur} := {cur} + {v}")
                 else:
                     self.err(s, "augmented assignment operator")
+                continue
+            if isinstance(s, ast.Expr) and isinstance(s.value, ast.Yield) and self.spec.get("generator") and s.value.value is not None:
+                # a generator whose only consumer takes all of it (`list(ParameterGrid(...))`): the yielded values, in order
+                rt = self.spec["ret"][1]
+                t, ty = self.E(s.value.value, env, rt)
+                self.lines.append(f"{pad}gen_out := gen_out ++ [{self.coerce(t, ty, rt, s.value.value)}]")
                 continue
             if isinstance(s, ast.Expr):
                 self.expr_stmt(s.value, env, pad)
@@ -1878,6 +1936,8 @@ class Fn:
             header.append("(self : Self R σ τ)")
         rty = lean_type(self.ret_type())
         self.lines = []
+        if sp.get("generator"):
+            self.lines.append("  let mut gen_out := []")
         if sp.get("selfrec"):
             self.lines.append("  let mut self := self")
         for k in sp.get("kwargs", {}):
@@ -1896,6 +1956,11 @@ class Fn:
                          st, self.table, self.effectful)
                 nested_defs.append(sub.translate())
         done = self.S(fn.body, env, 1) or self.ended
+        if not done and sp.get("generator"):
+            if any(isinstance(x, ast.Return) for x in ast.walk(fn)):
+                raise Untranslatable(fn, "return inside a generator")
+            self.lines.append("  return gen_out")
+            done = True
         if not done:
             if sp["ret"] != "unit":
                 raise Untranslatable(fn, "control can reach the end of a function that returns a value")
@@ -1994,7 +2059,7 @@ def infer_effects(table) -> set[str]:
                         and ast.unparse(n.func.value) == "self._task":
                     cs.add(f"Task::self.{n.func.attr}")
         calls[key] = cs
-        if own or sp.get("selfrec") or sp.get("uses_dispatch") or sp.get("uses_var_dispatch"):
+        if own or sp.get("selfrec") or sp.get("uses_dispatch") or sp.get("uses_var_dispatch") or sp.get("grid"):
             eff.add(key)
     changed = True
     while changed:
